@@ -453,9 +453,90 @@ func c17r3(c *core.Ctx) {
 		c.Check(bad == 0 && sites > 0, "guarded-read:"+spec.name, f.Pos(), fmt.Sprintf("%d fixed-width access(es), each dominated by a length guard >= %d", sites, spec.need),
 			fmt.Sprintf("%s reads %d bytes of an item without a dominating length guard: a shorter item from the peer panics (index out of range)", spec.name, spec.need))
 	}
+	bucketAccessAfterSuccess(c)
+	tlv8ReaderModel(c)
+	tlv8ReadLoop(c)
+	tlv8ReadFailureFatal(c, c.P.Func("tlv8", "read"))
+	tlv8ReaderResultsUsed(c)
+}
+
+// bucketAccessAfterSuccess: readBytes answers (nil, io.EOF) for a tag that is not in the input. Every index or slice expression on
+// the bytes it returns lies behind the test that it succeeded (stored values are non-empty: buckets-non-empty), or behind a length
+// guard on the same tag (the fixed-width readers, checked above).
+func bucketAccessAfterSuccess(c *core.Ctx) {
+	n := 0
+	for _, f := range libFuncs(c.P) {
+		if pkgPathOf(f) != mod+"/tlv8" || f.Blocks == nil {
+			continue
+		}
+		for _, s := range core.FindCalls(f, func(i ssa.Instruction) bool { return core.IsCall(i, "(*"+mod+"/tlv8.reader).readBytes") }) {
+			s := s
+			okFact := errNilFact(1, func(i ssa.Instruction) bool { return i == s })
+			isBucket := func(v ssa.Value) bool {
+				return v != nil && core.SomeSource(v, func(sv ssa.Value) bool {
+					return core.CallResult(sv, 0, func(i ssa.Instruction) bool { return i == s }) != nil
+				})
+			}
+			tag := core.Args(s)[0]
+			lenGuard := func(cond ssa.Value) (bool, bool) {
+				bo, ok := cond.(*ssa.BinOp)
+				if !ok {
+					return false, false
+				}
+				call, ok := core.StripConv(bo.X).(*ssa.Call)
+				if !ok {
+					return false, false
+				}
+				g := call.Call.StaticCallee()
+				if g == nil || cn(g) != "len" || !core.TypeIs(recvType(g), mod+"/tlv8.reader") || !sameValue(call.Call.Args[1], tag) {
+					return false, false
+				}
+				k, isK := core.ConstInt(bo.Y)
+				if !isK {
+					return false, false
+				}
+				switch bo.Op {
+				case token.LSS:
+					return false, k >= 1
+				case token.GEQ:
+					return k >= 1, false
+				case token.GTR:
+					return k >= 0, false
+				case token.LEQ:
+					return false, k >= 0
+				}
+				return false, false
+			}
+			core.Instrs(f, func(i ssa.Instruction) {
+				var x ssa.Value
+				switch y := i.(type) {
+				case *ssa.IndexAddr:
+					x = y.X
+				case *ssa.Index:
+					x = y.X
+				case *ssa.Slice:
+					x = y.X
+				default:
+					if g := core.Callee(i); g != nil && strings.HasPrefix(core.QualName(g), "(encoding/binary.littleEndian).Uint") {
+						x = core.Args(i)[0]
+					}
+				}
+				if x == nil || !isBucket(x) {
+					return
+				}
+				n++
+				c.Check(core.Dominated(i, okFact) || core.Dominated(i, lenGuard), "bucket-access-after-success@"+fname(f), posOf(i), "the bytes of an item are indexed only where the item is known to be present",
+					"the bytes returned by readBytes are indexed on a path where neither its error nor a length guard on the tag has been tested: for a tag that is absent from the input the slice is nil and the decoder panics")
+			})
+		}
+	}
+	if n == 0 {
+		c.Undecided("bucket-access-after-success", token.NoPos, "no indexed access to the bytes of an item found in the tlv8 package")
+	}
 }
 
 func c17r4(c *core.Ctx) {
+	tlv8MergeOnlyPreviousItem(c)
 	p := c.P
 	rd := p.Func("tlv8", "read")
 	if rd != nil {
@@ -519,6 +600,7 @@ func c17r4(c *core.Ctx) {
 	// the flag (a flag that is set by a delimiter and only cleared by the next delimiter makes every later fragment a new list element)
 	if rd := p.Func("tlv8", "read"); rd != nil {
 		var flags []*ssa.Phi
+		nFlags := 0
 		core.Instrs(rd, func(i ssa.Instruction) {
 			if ph, ok := i.(*ssa.Phi); ok && reachesAfter(ph, ph) {
 				if b, ok := ph.Type().Underlying().(*types.Basic); ok && b.Kind() == types.Bool {
@@ -530,16 +612,27 @@ func c17r4(c *core.Ctx) {
 			// only the variable that decides how a value is filed
 			decides := false
 			core.Instrs(rd, func(i ssa.Instruction) {
+				is := func(v ssa.Value) bool { return v == ssa.Value(flag) }
 				if mu, ok := i.(*ssa.MapUpdate); ok {
-					is := func(v ssa.Value) bool { return v == ssa.Value(flag) }
 					if core.Dominated(mu, core.TrueFact(is)) || core.Dominated(mu, core.FalseFact(is)) {
 						decides = true
+					}
+				}
+				// the merge written in place: l[k] = append(l[k], v...)
+				if st, ok := i.(*ssa.Store); ok {
+					if ia, ok := st.Addr.(*ssa.IndexAddr); ok {
+						if sl, ok := ia.X.Type().Underlying().(*types.Slice); ok {
+							if _, inner := sl.Elem().Underlying().(*types.Slice); inner && core.Dominated(st, core.FalseFact(is)) {
+								decides = true
+							}
+						}
 					}
 				}
 			})
 			if !decides {
 				continue
 			}
+			nFlags++
 			kept, iters := 0, 0
 			core.EnumPaths(rd, 3, 200000, func(pa core.Path) {
 				var idx []int
@@ -568,6 +661,9 @@ func c17r4(c *core.Ctx) {
 			delimiterFlagMeaning(c, rd, flag)
 			c.Check(kept == 0 && iters > 0, "delimiter-flag-per-item@"+fname(rd), flag.Pos(), "every iteration that stores a value re-assigns the delimiter flag",
 				"an iteration that stores a value leaves the 'previous item was a delimiter' flag as it was: once a list delimiter was seen, the fragments of every later long value are filed as list elements instead of being merged")
+		}
+		if nFlags == 0 {
+			c.Bad("delimiter-flag@"+fname(rd), rd.Pos(), "tlv8.read carries no 'the previous item was a list delimiter' state from one item to the next that decides between a new list element and the continuation of a value (the flag is never assigned, or nothing depends on it): the elements of a list are merged into one value, or every fragment of a long value becomes an element")
 		}
 	}
 	dec := p.Func("tlv8", "(*decoder).decode")
@@ -998,7 +1094,9 @@ func delimiterFlagMeaning(c *core.Ctx, rd *ssa.Function, flag *ssa.Phi) {
 			})
 			if fromLookup {
 				n++
-				if !core.Dominated(mu, core.TrueFact(isFlag)) {
+				// a new value for a tag that was seen before: after a delimiter — or after an item of another tag (the item is not
+				// the continuation of the one directly before it: merge-only-previous-item)
+				if !core.Dominated(mu, core.AnyFact(core.TrueFact(isFlag), differsFromPrevTag(rd))) {
 					okUse = false
 				}
 			}
@@ -1029,4 +1127,42 @@ func delimiterFlagMeaning(c *core.Ctx, rd *ssa.Function, flag *ssa.Phi) {
 		fmt.Println("delimiter use: okUse", okUse, "n", n)
 	}
 	c.Check(okUse && n >= 2, "delimiter-flag-meaning/use@"+fname(rd), flag.Pos(), "a value after a delimiter starts a new element, any other repeated tag continues the fragment", "the decision between 'next list element' and 'next fragment of a long value' is inverted or missing: long values are split into list elements, list elements are glued together")
+}
+
+// differsFromPrevTag: the fact "the tag of this item differs from the tag of the item before it" (tag variable vs a loop-carried copy).
+func differsFromPrevTag(rd *ssa.Function) core.CondFact {
+	var tagCell ssa.Value
+	core.Instrs(rd, func(i ssa.Instruction) {
+		if tagCell != nil {
+			return
+		}
+		if t, _, ok := isStreamRead(i); ok {
+			tagCell = core.StripConv(t)
+			if mi, isMI := tagCell.(*ssa.MakeInterface); isMI {
+				tagCell = mi.X
+			}
+		}
+	})
+	isTagLoad := func(v ssa.Value) bool {
+		u, ok := core.StripConv(v).(*ssa.UnOp)
+		return ok && tagCell != nil && u.Op == token.MUL && u.X == tagCell
+	}
+	isPrevTag := func(v ssa.Value) bool {
+		ph, ok := core.StripConv(v).(*ssa.Phi)
+		if !ok {
+			return false
+		}
+		for _, e := range ph.Edges {
+			if isTagLoad(e) {
+				return true
+			}
+		}
+		return false
+	}
+	return core.CmpFact(func(x, y ssa.Value) (bool, bool) {
+		if (isTagLoad(x) && isPrevTag(y)) || (isTagLoad(y) && isPrevTag(x)) {
+			return false, true
+		}
+		return false, false
+	})
 }
